@@ -92,7 +92,9 @@ func unitC13sess(e common.Env, p *common.Part) {
 			sig, what := "", ""
 			if u, err := allNil(res, ids); err != nil {
 				sig, what = "session-failed", fmt.Sprintf("node %d: %v", u, err)
-				if res.Elapsed >= timeout {
+				if res.Elapsed >= timeout && res.QuietAtFirstReturn >= 2*time.Second {
+					what += fmt.Sprintf(" (the network had been empty and silent for %v when the deadline fired)", res.QuietAtFirstReturn.Round(100*time.Millisecond))
+				} else if res.Elapsed >= timeout {
 					// watchdog: replay once in a fresh cluster with a 4x deadline before judging
 					c.Stop()
 					c = newRCluster(cluster.Config{Map: identityMap(ids...), Silent: silent, Threshold: len(ids) - 1}, r, pol)
